@@ -81,8 +81,8 @@ Definition pick (sched : list nat) (l : list task) : nat :=
 
 (* after the coordinator has returned an error, Drop joins the pool: the tasks
    still in flight run to completion, their results are discarded (mod.rs:290-316) *)
-Fixpoint drain (fuel : nat) (sched : list nat) (l : list task) (w : world) (trace : list task)
-  : option (world * list task) :=
+Fixpoint drain (fuel : nat) (sched : list nat) (l : list task) (w : world) (trace : list (task * result))
+  : option (world * list (task * result)) :=
   match fuel with
   | O => Some (w, trace)
   | S fuel' =>
@@ -94,36 +94,38 @@ Fixpoint drain (fuel : nat) (sched : list nat) (l : list task) (w : world) (trac
       let t := nth k sl t0 in
       match exec_task t w with
       | None => None
-      | Some (_, w') => drain fuel' (tl sched) (remove_nth k sl) w' (trace ++ [t])
+      | Some (r, w') => drain fuel' (tl sched) (remove_nth k sl) w' (trace ++ [(t, r)])
       end
     end
   end.
 
-Fixpoint run_loop (fuel : nat) (sched : list nat) (s : cstate) (w : world) (trace : list task)
-  : verdict * world * list task :=
+(* returns the verdict, the final world, the completed tasks with what they sent back (in completion
+   order) and the coordinator's final state (the last two are ghosts for the theorems) *)
+Fixpoint run_loop (fuel : nat) (sched : list nat) (s : cstate) (w : world) (trace : list (task * result))
+  : verdict * world * list (task * result) * cstate :=
   match sort_tasks (inflight s) with
   | [] =>
     (* channel empty and done == total: leave the loop (mod.rs:141-143, 214-220) *)
-    ((if has_remaining (dm s) then VErr else VOk), w, trace)
+    ((if has_remaining (dm s) then VErr else VOk), w, trace, s)
   | t0 :: _ =>
     match fuel with
-    | O => (VFuel, w, trace)
+    | O => (VFuel, w, trace, s)
     | S fuel' =>
       let sl := sort_tasks (inflight s) in
       let k := pick sched sl in
       let t := nth k sl t0 in
       let s1 := mkC (seen s) (seen_dirs s) (dm s) (total s) (done s) (remove_nth k sl) in
       match exec_task t w with
-      | None => (VPanic, w, trace ++ [t])
+      | None => (VPanic, w, trace, s1)
       | Some (r, w') =>
         match handle s1 r with
-        | Continue s2 => run_loop fuel' (tl sched) s2 w' (trace ++ [t])
+        | Continue s2 => run_loop fuel' (tl sched) s2 w' (trace ++ [(t, r)])
         | Fail =>
-          match drain (length (inflight s1)) (tl sched) (inflight s1) w' (trace ++ [t]) with
-          | Some (w'', tr) => (VErr, w'', tr)
-          | None => (VPanic, w', trace ++ [t])
+          match drain (length (inflight s1)) (tl sched) (inflight s1) w' (trace ++ [(t, r)]) with
+          | Some (w'', tr) => (VErr, w'', tr, s1)
+          | None => (VPanic, w', trace ++ [(t, r)], s1)
           end
-        | Panic => (VPanic, w', trace ++ [t])
+        | Panic => (VPanic, w', trace ++ [(t, r)], s1)
         end
       end
     end
@@ -134,14 +136,14 @@ End RUN.
 (* Txtpp::run.  The thread-pool size only restricts which in-flight tasks can be
    running; every schedule of a pool of any size >= 1 is a schedule here. *)
 Definition txtpp_run (orc : oracle) (cfg : config) (fuel : nat) (sched : list nat) (w : world)
-  : verdict * world * list task :=
-  if cfg_threads cfg =? 0 then (VErr, w, [])
+  : verdict * world * list (task * result) * cstate :=
+  if cfg_threads cfg =? 0 then (VErr, w, [], c_init)
   else
     match os_resolve (w_fs w) (cfg_base cfg) with
-    | None => (VErr, w, [])
+    | None => (VErr, w, [], c_init)
     | Some base =>
       match resolve_inputs (w_fs w) base (cfg_inputs cfg) [] [] with
-      | None => (VErr, w, [])
+      | None => (VErr, w, [], c_init)
       | Some (files, dirs) =>
         let s := fold_left (fun s f => exec_file s f true) files c_init in
         let s := fold_left exec_dir dirs s in
